@@ -360,9 +360,13 @@ class SqlalchemyRender:
         elif isinstance(t, ast.Exists):
             sub_stmt = self.prepare_select(t.query)
             col = sub_stmt.exists()
+            if t.alias:
+                col = col.label(self.get_alias(t.alias))
         elif isinstance(t, ast.NotExists):
             sub_stmt = self.prepare_select(t.query)
             col = ~sub_stmt.exists()
+            if t.alias:
+                col = col.label(self.get_alias(t.alias))
         elif isinstance(t, ast.Case):
             col = self.truth_value(self.prepare_case(t))
             if t.alias:
